@@ -649,17 +649,43 @@ func c16Margins(c *Ctx, p *Prog) {
 	}
 	// the emitter pads the margin with the same table
 	okEmit := false
-	eachInstr(fn, func(_ *ssa.BasicBlock, in ssa.Instruction) {
-		if call, ok := in.(*ssa.Call); ok && objIs(calleeObj(&call.Call), "fmt", "", "Fprintf") {
-			if f, _ := constString(call.Call.Args[1]); strings.Contains(f, "%*s%*s") {
-				// varargs contain a load of table[cell.col]
-				if sl, ok := call.Call.Args[2].(*ssa.Slice); ok {
-					if al, ok := sl.X.(*ssa.Alloc); ok {
-						for _, st := range storesInto(al) {
-							if mi, ok := st.Val.(*ssa.MakeInterface); ok {
-								if la := loadAddr(mi.X); la != nil {
-									if ia, ok := la.(*ssa.IndexAddr); ok && ia.X == table {
-										okEmit = true
+	// the margin table as seen by the emitter: the table itself, or the parameter of a table method that Format hands it to
+	isTable := func(v ssa.Value) bool {
+		if v == table {
+			return true
+		}
+		prm, ok := v.(*ssa.Parameter)
+		if !ok {
+			return false
+		}
+		h := prm.Parent()
+		pi := -1
+		for i, q := range h.Params {
+			if q == prm {
+				pi = i
+			}
+		}
+		passes := false
+		eachInstr(fn, func(_ *ssa.BasicBlock, in2 ssa.Instruction) {
+			if call, ok := in2.(*ssa.Call); ok && call.Call.StaticCallee() == h && pi >= 0 && pi < len(call.Call.Args) && call.Call.Args[pi] == table {
+				passes = true
+			}
+		})
+		return passes
+	}
+	for _, eg := range c16WithTableMethods(fn) {
+		eachInstr(eg, func(_ *ssa.BasicBlock, in ssa.Instruction) {
+			if call, ok := in.(*ssa.Call); ok && objIs(calleeObj(&call.Call), "fmt", "", "Fprintf") {
+				if f, _ := constString(call.Call.Args[1]); strings.Contains(f, "%*s%*s") {
+					// varargs contain a load of table[cell.col]
+					if sl, ok := call.Call.Args[2].(*ssa.Slice); ok {
+						if al, ok := sl.X.(*ssa.Alloc); ok {
+							for _, st := range storesInto(al) {
+								if mi, ok := st.Val.(*ssa.MakeInterface); ok {
+									if la := loadAddr(mi.X); la != nil {
+										if ia, ok := la.(*ssa.IndexAddr); ok && isTable(ia.X) {
+											okEmit = true
+										}
 									}
 								}
 							}
@@ -667,8 +693,8 @@ func c16Margins(c *Ctx, p *Prog) {
 					}
 				}
 			}
-		}
-	})
+		})
+	}
 	c.Check(okEmit, R, "Format:emit-margin", site, "the emitter pads each cell's margin to the column's margin width", "the emitter does not pad margins from the per-column margin table")
 }
 
@@ -1015,9 +1041,16 @@ func c16Emit(c *Ctx, p *Prog) {
 	site := p.pos(fn.Pos())
 	spanF := p.Field(ttabRel, "textCell", "span")
 	colF := p.Field(ttabRel, "textCell", "col")
+	// the emission may sit in Format or in a method of the table that Format calls
+	scope := c16WithTableMethods(fn)
+	eachInScope := func(f func(*ssa.BasicBlock, ssa.Instruction)) {
+		for _, g := range scope {
+			eachInstr(g, f)
+		}
+	}
 	// total width: offs[col+span] - offs[col] - lmargin[col]
 	okTW := false
-	eachInstr(fn, func(_ *ssa.BasicBlock, in ssa.Instruction) {
+	eachInScope(func(_ *ssa.BasicBlock, in ssa.Instruction) {
 		bo, ok := in.(*ssa.BinOp)
 		if !ok || bo.Op != token.SUB {
 			return
@@ -1062,7 +1095,7 @@ func c16Emit(c *Ctx, p *Prog) {
 	c.Check(okTW, R, "emit:cell-width", site, "a cell is padded to offs[col+span] - offs[col] - margin", "the printed cell width is not the span's total width minus the margin: right-aligned cells of a column stop ending at the same offset")
 	// blank cells skipped
 	okSkip := false
-	eachInstr(fn, func(_ *ssa.BasicBlock, in ssa.Instruction) {
+	eachInScope(func(_ *ssa.BasicBlock, in ssa.Instruction) {
 		if call, ok := in.(*ssa.Call); ok && objIs(calleeObj(&call.Call), "strings", "", "TrimSpace") {
 			okSkip = true
 		}
@@ -1130,4 +1163,28 @@ func c16Shrink(c *Ctx, p *Prog) {
 		})
 	}
 	c.Floor(R, "SetShrink calls in the table renderer", n, 1)
+}
+
+// c16WithTableMethods: fn and the methods of its receiver type that it calls (the layout and the emission may have been
+// split into two methods of the table).
+func c16WithTableMethods(fn *ssa.Function) []*ssa.Function {
+	out := []*ssa.Function{fn}
+	if fn.Signature.Recv() == nil {
+		return out
+	}
+	rn := recvName(fn.Signature.Recv().Type())
+	eachInstr(fn, func(_ *ssa.BasicBlock, in ssa.Instruction) {
+		if call, ok := in.(*ssa.Call); ok {
+			if sc := call.Call.StaticCallee(); sc != nil && sc.Pkg == fn.Pkg && sc.Blocks != nil && sc.Signature.Recv() != nil && recvName(sc.Signature.Recv().Type()) == rn {
+				dup := false
+				for _, o := range out {
+					dup = dup || o == sc
+				}
+				if !dup {
+					out = append(out, sc)
+				}
+			}
+		}
+	})
+	return out
 }
